@@ -45,6 +45,26 @@ def coq_vm(v):
     return "Base" if v < 0 else "(Temp %d)" % v
 
 
+def coq_ops(ops):
+    """Coq terms for a history; req_begin = the request-level TempVM is created (ONewTemp),
+    req_end = it is dropped (ODiscard of that TempVM)"""
+    out = []
+    ntemps = 0
+    cur = None
+    for o in ops:
+        if o["op"] == "req_begin":
+            cur = ntemps
+            ntemps += 1
+            out.append("ONewTemp")
+        elif o["op"] == "req_end":
+            out.append("ODiscard %d" % cur)
+        else:
+            if o["op"] == "newtemp":
+                ntemps += 1
+            out.append(coq_op(o))
+    return out
+
+
 def coq_op(o):
     k = o["op"]
     if k == "newtemp":
@@ -105,7 +125,7 @@ def coq_case(c, obs, pt, pobs):
     pur = "None" if pobs is None else "(Some (%d%%nat, %s))" % (pt, coq_steps(c, pobs["steps"]))
     return ("{| c_cp := %s; c_names := %s; c_consts := %s; c_files := %s; c_ops := %s; c_obs := %s; c_purge := %s |}" % (
         coq_list(cpl), coq_list(coq_string(n) for n in c["names"]), coq_list(coq_string(n) for n in c["consts"]),
-        coq_list(str(1000 + i) for i in range(len(c["cp"]))), coq_list(coq_op(o) for o in c["ops"]),
+        coq_list(str(1000 + i) for i in range(len(c["cp"]))), coq_list(coq_ops(c["ops"])),
         coq_steps(c, obs["steps"]), pur))
 
 
@@ -134,9 +154,37 @@ def rand_case(rng, maxlen):
             return ntemps  # a VM that does not exist (yet)
         return rng.randrange(ntemps)
 
+    def one_op(forced_vm=None):
+        r = rng.uniform(0.12, 0.91)
+        v = vm() if forced_vm is None else (forced_vm if rng.random() < 0.8 else -1)
+        if r < 0.55:
+            route = "parse" if rng.random() < 0.5 else "direct"
+            name = rng.choice(SIMPLE if route == "parse" else REG)
+            if used and rng.random() < 0.2:
+                f = rng.choice(used)
+            else:
+                f = nextfile[0]
+                nextfile[0] += 1
+                used.append(f)
+            return {"op": "add", "vm": v, "kind": rng.choice("ccif"), "name": name, "file": f, "route": route}
+        if r < 0.85:
+            return {"op": rng.choice(["goc", "goc", "goi", "pkg"]), "vm": v,
+                    "name": rng.choice(LOOK if rng.random() < 0.5 else ["App\\P", "App\\Q", "App\\R", "App\\S", "App\\p", "App\\SI"])}
+        return {"op": "const", "vm": v, "name": rng.choice(["K", "L"]), "val": rng.randint(1, 9)}
+
+    nreq = 0
     while len(ops) < n:
         r = rng.random()
-        if ntemps < 4 and (r < 0.12 or (ntemps == 0 and r < 0.5)):
+        if nreq < 6 and r < 0.10:
+            # one request served by the real HotHandler: its TempVM is created by ServeHTTP
+            t = ntemps
+            ntemps += 1
+            nreq += 1
+            ops.append({"op": "req_begin"})
+            for _ in range(rng.randint(0, 5)):
+                ops.append(one_op(forced_vm=t))
+            ops.append({"op": "req_end"})
+        elif ntemps - nreq < 3 and (r < 0.20 or (ntemps == 0 and r < 0.5)):
             ops.append({"op": "newtemp"})
             ntemps += 1
         elif r < 0.55:
@@ -211,11 +259,29 @@ def main(ck):
                 cases.append((mk(ops, names=SMALL_LOOK, consts=["K"]), t))
         if ck.tier == "quick":
             # length 4: a seeded sample of the 12^4 sequences
-            for _ in range(1500):
+            for _ in range(1000):
                 ops = pre + [rng.choice(alpha) for _ in range(4)]
                 t = rng.choice([0, 1])
                 cases.append((mk(ops, names=SMALL_LOOK, consts=["K"]), t if any(scoped_to(t, o) for o in ops) else None))
-        nrand = 500 if ck.tier == "quick" else 12000
+        # requests through the real HotHandler: all pairs (quick) / triples (thorough) of requests with <= 2 ops each
+        ralpha = [lambda t: {"op": "add", "vm": t, "kind": "c", "name": "A", "file": 10 + t, "route": "parse"},
+                  lambda t: {"op": "add", "vm": t, "kind": "f", "name": "A", "file": 20 + t, "route": "parse"},
+                  lambda t: {"op": "add", "vm": t, "kind": "i", "name": "a", "file": 30 + t, "route": "direct"},
+                  lambda t: {"op": "goc", "vm": t, "name": "App\\P"},
+                  lambda t: {"op": "pkg", "vm": t, "name": "App\\Q"}]
+        bodies = [()] + [(a,) for a in ralpha] + [(a, b) for a in ralpha for b in ralpha]
+        nreqs = 2 if ck.tier == "quick" else 3
+        for combo in itertools.product(bodies, repeat=nreqs):
+            if rng.random() > (0.45 if nreqs == 2 else 0.15):
+                continue
+            ops = []
+            for t, body in enumerate(combo):
+                ops.append({"op": "req_begin"})
+                ops += [f(t) for f in body]
+                ops.append({"op": "req_end"})
+            tt = rng.randrange(nreqs)
+            cases.append((mk(ops, names=SMALL_LOOK, consts=["K"]), tt if any(scoped_to(tt, o) for o in ops) else None))
+        nrand = 400 if ck.tier == "quick" else 12000
         for _ in range(nrand):
             c = rand_case(rng, 40)
             ts = sorted(set(o["vm"] for o in c["ops"] if o["op"] in ("add", "goc", "goi", "pkg") and o["vm"] >= 0))
@@ -292,6 +358,8 @@ def main(ck):
         ops = c["ops"]
         for o in ops:
             dist[o["op"]] = dist.get(o["op"], 0) + 1
+        if any(o["op"] == "req_begin" for o in ops):
+            dist["histories_with_HotHandler_requests"] = dist.get("histories_with_HotHandler_requests", 0) + 1
         b = min(len(ops) // 5 * 5, 40)
         lens[str(b)] = lens.get(str(b), 0) + 1
         # non-trivial: some TempVM operation and some operation on a different VM
